@@ -206,7 +206,8 @@ Definition out_row (locals : row) (s : nat) : row :=
 (* check_bb: inl error, or inr (output rows, dummy output rows) *)
 Definition check_bb (b : nat) (inputs : row) : outcome + (list row * list row) :=
   let entry_err :=
-    if b =? 0 then first_some (fun x => if inD0 x || glob x then None else Some (NotDefined 0 x)) (xuse g 0)
+    if b =? 0 then first_some (fun x => if negb (inD0 x) && (memb x asg || negb (glob x))
+                                        then Some (NotDefined 0 x) else None) (xuse g 0)
     else None in
   match entry_err with
   | Some e => inl e
